@@ -74,7 +74,7 @@ CLAIMED = {
 ADD_TEXT = {
  'C01': " Added: the real parse_expr + eval_expr on all operator sequences of 3 (thorough 4) symbolic operands against an independent evaluator written from the manual (precedence, associativity, unary minus), and literal shapes up to the 64-bit boundaries of the radix parsers.",
  'C03': " Added: Context::describe_unit (the text that names the missing factor in a conformance error) on an arbitrary dimensionality over m, s with a table of six named quantities: the description, read back, denotes exactly that dimensionality (with the reciprocal flag).",
- 'C06': " Added: Number::pretty_unit with the real fast_decompose on an arbitrary dimensionality over kg, m, s and a table of derived units (regrouping preserves the dimensionality, whatever candidate the heuristic picks), and Number::unit_to_string (its text read back denotes the dimensionality).",
+ 'C06': " Added: Number::pretty_unit with the real fast_decompose on an arbitrary dimensionality over kg, m, s and a table of derived units (regrouping preserves the dimensionality, whatever candidate the heuristic picks), and Number::unit_to_string (its text read back denotes the dimensionality); Context::show prints the target constant as integer factor / divisor whose quotient is exactly that constant.",
  'C10': " Added: `(x <s1>) -> <s2>` with an operand that carries an arbitrary unit is refused whatever the pair of scales (also s1 = s2); parse_query takes a scale token as a scale conversion only when it is the whole target (`-> degC / s`, `-> degF m` are compound targets and refused).",
  'C04': " Added: parse_query on the `-> [digits N] [base B] [target]` suffix with symbolic digits (an accepted base lies in 2..=36), to_duration on float seconds (NaN, infinite, finite), the date offset matcher with hours of 1..10 digits, attempt() on out-of-range offsets.",
  'C07': " Added: Context::canonicalize followed by lookup preserves the value (symbolic database with long/short prefix pairs and names that split two ways); lookup(first); lookup(second) on one context equals lookup(second) on an identical fresh context for 9 name pairs with two prefix readings (history independence); static scan: no iteration over a std HashMap/HashSet in rink-core. Counterexamples are replayed on a Registry built natively from the model. Case variants of `ans` (Ans, aNs) are ordinary names.",
